@@ -14,6 +14,8 @@ import (
 // ToMultiAlign converts a SAM file containing pairwise alignments between assembled genomes to a fasta-format alignment.
 // Insertions relative to the reference are discarded, so all the sequences are the same (=reference) length
 func ToMultiAlign(samIn io.Reader, out io.Writer, wrap int, trimstart int, trimend int, pad bool, threads int) error {
+	vhook.Begin("sam.ToMultiAlign", threads)
+	defer vhook.End("sam.ToMultiAlign")
 
 	cSR := make(chan samRecords, threads)
 	cReadDone := make(chan bool)
